@@ -15,7 +15,8 @@
 (***************************************************************************)
 EXTENDS Naturals, Sequences, FiniteSets
 
-CONSTANTS Atoms,        \* atom tokens the atom constructor accepts
+CONSTANTS Lenient,      \* TRUE for AtomBase: its logical_and/or short-circuit like Python's and/or
+          Atoms,        \* atom tokens the atom constructor accepts
           BadAtoms,     \* atom tokens on which the atom constructor raises
           OpTable,      \* set of operator tokens present in the solver's operator table
           Steps         \* sequence of [ops |-> set of tokens, otype |-> "ARGS"|"UNARY"|"BINARY"]
@@ -26,8 +27,11 @@ F(sym, args)== [k |-> "f", s |-> sym, tr |-> <<>>, a |-> args]
 NONE        == [k |-> "n", s |-> "", tr |-> <<>>, a |-> <<>>]
 IsTree(i)   == i.k = "t"
 
-MOpenToks == {"(", "f1(", "f2("}
-MNArg(tok) == IF tok = "f2(" THEN 2 ELSE 1
+\* "f1(" stands for any one-argument function, "f2(" for any two-argument function (scenario
+\* generation); "logb(" and "pow(" are the two real ones with the trees the code builds for them
+\* (trace validation, where trees are observed exactly)
+MOpenToks == {"(", "f1(", "f2(", "logb(", "pow("}
+MNArg(tok) == IF tok \in {"f2(", "logb(", "pow("} THEN 2 ELSE 1
 
 \* the state of one Tokens object plus the outcome flag of the running call
 St(l, r)  == [l |-> l, r |-> r, err |-> FALSE]
@@ -81,7 +85,7 @@ Binary(sym, l0, r0) ==
      THEN St(Append(gl.l, T(<<sym>> \o gl.v.tr \o gr.v.tr)), gr.r)
      ELSE IF sym \in {"==", "!="} /\ ~IsTree(gl.v) /\ ~IsTree(gr.v)
      THEN St(Append(gl.l, PY), gr.r)
-     ELSE IF sym \in {"&&", "||"} /\ IsTree(gl.v)
+     ELSE IF Lenient /\ sym \in {"&&", "||"} /\ IsTree(gl.v)
      THEN St(Append(gl.l, T(<<sym \o "?">> \o gl.v.tr)), gr.r)
      ELSE ErrSt(gl.l, gr.r)
 
@@ -89,8 +93,10 @@ Binary(sym, l0, r0) ==
 Args(tok, l0, r0) ==
   IF tok.s = "(" THEN St(Append(l0, tok.a[1]), r0)
   ELSE IF \A i \in 1..Len(tok.a) : IsTree(tok.a[i])
-       THEN St(Append(l0, T((IF tok.s = "f1(" THEN <<"f1">> ELSE <<"f2">>)
-                            \o tok.a[1].tr \o (IF Len(tok.a) > 1 THEN tok.a[2].tr ELSE <<>>))), r0)
+       THEN St(Append(l0, T(CASE tok.s = "f1("   -> <<"f1">> \o tok.a[1].tr
+                              [] tok.s = "f2("   -> <<"f2">> \o tok.a[1].tr \o tok.a[2].tr
+                              [] tok.s = "logb(" -> <<"/", "f1">> \o tok.a[1].tr \o <<"f1">> \o tok.a[2].tr
+                              [] tok.s = "pow("  -> <<"**">> \o tok.a[1].tr \o tok.a[2].tr)), r0)
        ELSE ErrSt(l0, r0)
 
 \* does this list item belong to the operator classes of the running step?
